@@ -79,6 +79,8 @@ def reset_dest_state():
 def mk_config(i, fmt, srcs, sym):
     """Config i; `sym` = dict of overrides (symbolic or concrete)."""
     master = MasterConfig("regular", "Regular", f"Font{i}.regular.ufo", (), tuple(srcs))
+    sym = dict(sym)
+    sym.setdefault("glyphmap_generator", f"my.generator{i}")
     return FontConfig()._replace(output_file=f"Font{i}.ttf", color_format=fmt, masters=(master,), source_names=tuple(sorted(p.name for p in srcs)), **sym)
 
 
@@ -260,6 +262,19 @@ def job_multi_vector(jc):
                 for clause, conj in props.items():
                     jc.prove(r, z3.And(*conj), f"{clause}: the edge producing each picosvg/part file of the {['first', 'second'][pos]} config carries that config's own value",
                              inp, replay_multi_vector, key=f"C20:multi:{clause}:{tag}")
+                # the font edge of this config consumes this config's own resolved files
+                fe = producer(w, cfg.output_file)
+                ok = len(fe) == 1 and fe[0]["rule"] == "write_font"
+                if ok:
+                    v = fe[0]["variables"]
+                    stem = Path(cfg.output_file).stem
+                    ok = str(v.get("config_file")) == f"{stem}.toml" and str(v.get("fea_file")) == f"{stem}.fea" and str(v.get("glyphmap_file")) == f"{stem}.glyphmap"
+                    gm = producer(w, f"{stem}.glyphmap")
+                    ok = ok and len(gm) == 1 and gm[0]["rule"] == cfg.glyphmap_generator and gm[0]["inputs"] == [str(f) for f in NE._input_files(cfg, cfg.masters[0])]
+                    fea = producer(w, f"{stem}.fea")
+                    ok = ok and len(fea) == 1 and fea[0]["rule"] == "write_fea" and fea[0]["inputs"] == [f"{stem}.glyphmap"]
+                jc.prove(r, z3.BoolVal(ok), "font/glyphmap/fea edges of each config use that config's own config file, generator and input files", inp, replay_multi_vector,
+                         key=f"C20:multi:font-edge:{tag}")
     finally:
         shutil.rmtree(d, ignore_errors=True)
 
